@@ -1961,6 +1961,16 @@ pub mod partialfx {
             self.pos = 0;
             Ok(())
         }
+        pub fn ok_flush_strict<W: Write>(&mut self, w: &mut W) -> io::Result<()> {
+            let want = self.data.len() - self.pos;
+            let n = self.drain_to(w)?;
+            if n != want {
+                return Err(io::Error::new(io::ErrorKind::WriteZero, "short write"));
+            }
+            self.data.clear();
+            self.pos = 0;
+            Ok(())
+        }
         pub fn bad_flush<W: Write>(&mut self, w: &mut W) -> io::Result<()> {
             if self.pos == self.data.len() {
                 return Ok(());
